@@ -7,7 +7,8 @@
 (* giving every declared Var a fresh name and printing, the label of each  *)
 (* printed identifier.  The property: the two partitions coincide, also    *)
 (* after parsing the renamed text again (alpha-equivalence), every Var's   *)
-(* Uses equals the number of places its name is printed, and programs with *)
+(* Uses equals the number of places its name is printed, names that are    *)
+(* not variables (property keys) are printed unchanged, and programs with   *)
 (* a lexical redeclaration are rejected.                                   *)
 (***************************************************************************)
 EXTENDS Integers, Sequences, TraceIO
@@ -24,7 +25,11 @@ TInit == l = 1 /\ bad = FALSE /\ verdict = "" /\ exp = <<>>
 IsStart == e.ev = "Open"
 Returned == e.out = "ret"
 Step == CASE e.ev = "Parse"   -> e.ok = (verdict = "accepted")
-          [] e.ev = "Vars"    -> Iso(exp, e.obs) /\ \A k \in 1..Len(e.uses) : e.uses[k][1] = e.uses[k][2]
+          [] e.ev = "Vars"    -> /\ Iso(exp, e.obs) /\ \A k \in 1..Len(e.uses) : e.uses[k][1] = e.uses[k][2]
+                                 \* renaming variables leaves every name that is not a variable alone: the property keys of the
+                                 \* printed program (keys) are those of the original (xkeys: one per shorthand property `{a}`
+                                 \* whose value is a declared variable -- it has to be printed as `{a: fresh}`)
+                                 /\ (Has(e, "keys") => e.keys = e.xkeys)
           [] e.ev = "Reparse" -> e.ok /\ Iso(exp, e.obs)
           [] OTHER -> FALSE
 
